@@ -40,7 +40,7 @@ AI = (-2, 0, 1)
 
 def bounds(tier, seed):
     if tier == "quick":
-        return dict(n_complete=4, n_stratum=5, strata=8, stratum=seed % 8)
+        return dict(n_complete=4, n_stratum=5, strata=16, stratum=seed % 16)
     return dict(n_complete=5, n_stratum=6, strata=8, stratum=seed % 8)
 
 
@@ -58,7 +58,7 @@ def shards(tier, seed):
                                 nparts=b["strata"] * (2 if b["n_stratum"] == 6 else 1)))
     # many-blocks leg: 9 and 10 size-1 chunks (block ids beyond 8, cohorts spanning many blocks, 2-3 tree levels)
     for func, dtype in (("argmax", "float64"), ("nanargmin", "float64"), ("nanlast", "int64"), ("nanfirst", "float64")):
-        for n in (9, 10) if tier == "quick" else (9, 10, 11):
+        for n in (9,) if tier == "quick" else (9, 10, 11):
             nparts = {9: 4, 10: 8, 11: 16}[n]
             for part in range(nparts):
                 out.append(dict(func=func, dtype=dtype, method="many", n=n, part=part, nparts=nparts, many=True))
